@@ -97,9 +97,9 @@ fn main() {
     check.coverage("alias_values_swept", serde_json::json!(65536));
     check.coverage("exhaustive", serde_json::json!(true));
 
-    check.run_prop("h4-write", 16, tier.pick(2_000, 50_000), ec::write_case, guard(ec::run_write));
+    check.run_prop("h4-write", 16, tier.pick(2_000, 500_000), ec::write_case, guard(ec::run_write));
     // alias writes and reads through the SII interface of a simulated device: command errors
     // (0..25 per word, retry bound 20), busy polling, a device that stays busy
-    check.run_prop("sii-device-path", 16, tier.pick(300, 6_000), ss::sii_dev_case, guard_repo(|c: &ss::SiiDevCase, i: &mut CaseInfo| ss::run_sii_dev(c, "C14", i)));
+    check.run_prop("sii-device-path", 16, tier.pick(300, 30_000), ss::sii_dev_case, guard_repo(|c: &ss::SiiDevCase, i: &mut CaseInfo| ss::run_sii_dev(c, "C14", i)));
     check.finish();
 }
